@@ -154,7 +154,7 @@ func RunC06(c *Ctx) {
 	workload.W7Positions(72, sink)
 	// string seeds of W1 in top-level position, every byte everywhere
 	workload.W1(c.Thorough(), func(cs *h.Case) {
-		if cs.P[0] < 177 {
+		if cs.P[0] < workload.TopLevelSeeds() {
 			sink(cs)
 		}
 	})
